@@ -196,7 +196,10 @@ def long_oracle(case) -> Info:
     rnd = random.Random(seed)
     sets = []
     for i in range(n):
-        addr = f"{rnd.choice([0, 1])}-{rnd.choice([0, 1])}:{i % 256}.{(i // 256) % 256}.{rnd.randrange(256)}"
+        c_, d_, e_ = i % 256, (i // 256) % 256, rnd.randrange(256)
+        if (c_, d_, e_) == (1, 0, 0):
+            e_ = 1  # 1.0.0 is the clock: only generated with a clock value (blocks clause)
+        addr = f"{rnd.choice([0, 1])}-{rnd.choice([0, 1])}:{c_}.{d_}.{e_}"
         k = rnd.choice([1, 1, 1, 2])
         vals = [(str(rnd.randrange(10**rnd.randrange(1, 6))), rnd.choice([None, "kWh", "V", "s"])) for _ in range(k)]
         sets.append((addr, vals))
